@@ -249,6 +249,11 @@ def group_sibling_covered(fx, tu, owner_cls, field, drained_fields):
 def rule_drain_members(fx, cg, v):
     n = 0
     for tu in fx.tus:
+        if tu.startswith('test_'):
+            # "cancel() never drains X" is an absence claim over the functions reachable from cancel(); a test TU
+            # instantiates only what that test uses (often a mock service), so absence there proves nothing.
+            # The rule is evaluated on the driver TUs, which instantiate the whole client for every stream type.
+            continue
         cancels = [f for f in fx.functions(cls='client_service', name='cancel') if f.tu == tu]
         if not cancels:
             continue
